@@ -283,3 +283,35 @@ def all_sequences(alphabet, max_len, i, n, joiner=""):
             yield joiner.join(parts)
             idx += n
     return total, it()
+
+
+# the alphabet of the bounded-exhaustive token-sequence families (shared by several checks)
+TOKEN_ALPHABET = ["<table>", "</table>", "<tr>", "<td>", "</td>", "<caption>", "<b>", "</b>", "<a>", "</a>", "<p>", "</p>", "<div>", "</div>",
+                  "<li>", "<select>", "</select>", "<option>", "<form>", "</form>", "<button>", "<svg>", "</svg>", "<math>", "<mi>", "<desc>",
+                  "<title>", "<frameset>", "</body>", "</html>", "<template>", "<nobr>", "<h1>", "<ruby>", "<rt>", "<object>", "</object>",
+                  "<input type=hidden>", "<br>", "x", " ", "<!--c-->", "\x00"]
+
+
+def token_sequences(ctx, quick_len, thorough_len, fraction=0.5, suffix="x", min_seconds=30.0):
+    """Yield this shard's slice of EVERY sequence of 1..L tokens over TOKEN_ALPHABET (+ suffix); stops when `fraction` of
+    the shard's time budget is used and records whether the enumeration was completed (counters
+    sequence_shards_completed / sequence_shards_cut_short - a check should turn the latter into 'inconclusive')."""
+    import time
+    L = quick_len if ctx.tier == "quick" else thorough_len
+    total, it = all_sequences(TOKEN_ALPHABET, L, ctx.i, ctx.n)
+    t_end = time.time() + max(min_seconds, ctx.time_left() * fraction)
+    cut = False
+    for qi, q in enumerate(it):
+        yield q + suffix
+        if qi % 32 == 0 and time.time() > t_end:
+            cut = True
+            break
+    ctx.count("sequence_shards_cut_short" if cut else "sequence_shards_completed")
+    ctx.count("max:sequence_length", 0)
+    ctx.counters["max:sequence_length"] = L
+
+
+def sequences_inconclusive(m):
+    if m["counters"].get("sequence_shards_cut_short", 0):
+        m["inconclusive"].append("the bounded-exhaustive token-sequence family was cut short by the time budget in %d shard(s)" %
+                                 m["counters"]["sequence_shards_cut_short"])
